@@ -51,6 +51,9 @@ def lit(f, c, i):
     a = f.const_args(c)
     if i < len(a) and a[i] is not None:
         if "s" in a[i]:
+            # a one-byte literal appended with extend_from_slice is the same write as push(byte)
+            if len(a[i]["s"]) == 1 and c.name in ("extend_from_slice", "push_str"):
+                return ord(a[i]["s"])
             return a[i]["s"]
         if "v" in a[i]:
             return int(a[i]["v"])
@@ -108,6 +111,8 @@ def c17a(ck, prog):
     per_line = shape_of([c for c in mw if in_line(c)])
     tail = shape_of([c for c in mw if after_lines(c)])
     other = shape_of([c for c in mw if not in_line(c) and not after_lines(c)])
+    norm = lambda xs: [("push", v) if isinstance(v, int) else (n_, v) for n_, v in xs]
+    per_line, tail, other = norm(per_line), norm(tail), norm(other)
     ok = per_line == [("extend_from_slice", "data: "), ("extend_from_slice", "<line>"), ("push", 10)] and tail == [("push", 10)] and not other
     ck.ob(R, "line-framing", ok, f.loc(msg.sp),
           "" if ok else "a message is built as %r per line, then %r (other writes: %r); expected `data: ` line LF per line and one final LF" % (per_line, tail, other), how="per line: data: <line> LF; after the lines: LF")
@@ -151,7 +156,11 @@ def c17a(ck, prog):
         cf = prog.fns.get(clos[-1][1][1].get("def")) if clos and clos[-1][0] == "agg" else None
         e = decision.show(decision.bool_expr(cf)) if cf is not None else "?"
         ok = re.fullmatch(r"Ne\(arg2,const 48\)|!Eq\(arg2,const 48\)", e) is not None
-        uncond = [c for c in mw if c.name == "push" and f.dominates(c.bb, hx.bb) and not any(fa.kind == "variant" and fa.allowed == {"Some"} and fa.steps and fa.steps[-1][0] == "call" and "Split" in (fa.steps[-1][1].callee or "") for fa in guards.facts_at(f, prog, c.bb))]
+        # any write of at least one byte that every message passes: push(byte) or extend_from_slice(non-empty literal)
+        def nonempty_write(c):
+            v = lit(f, c, 1)
+            return c.name == "push" or (c.name in ("extend_from_slice", "push_str") and (isinstance(v, int) or (isinstance(v, str) and len(v) > 0)))
+        uncond = [c for c in mw if nonempty_write(c) and f.dominates(c.bb, hx.bb) and not any(fa.kind == "variant" and fa.allowed == {"Some"} and fa.steps and fa.steps[-1][0] == "call" and len(loop_nx) == 1 and fa.steps[-1][1].bb == loop_nx[0].bb for fa in guards.facts_at(f, prog, c.bb))]
         ok = ok and len(uncond) >= 1
         ck.ob(R, "leading-zeros", ok, f.loc(pos[0].sp), "" if ok else "stripping the leading zeros of the size (%s) can find no non-zero digit: the message may be empty" % e, how="position(|b| b != '0'); message.len() >= 1 by an unconditional push")
     else:
